@@ -128,7 +128,8 @@ def case_strategy():
     frag = st.lists(node(2), max_size=4)
     body = st.builds(lambda a, k: [{"k": "tag", "name": "body", "ws": True, "attrs": a, "kids": k}], ATTRS, st.lists(node(2), max_size=3))
     html = html_root().map(lambda h: [h])
-    content = st.one_of(frag, frag, body, html, html)
+    body_plus = st.builds(lambda b, f: b + f, body, st.lists(node(1), min_size=1, max_size=2))  # not a *lone* body: gets wrapped
+    content = st.one_of(frag, frag, body, body_plus, html, html)
     return st.fixed_dictionaries(
         {
             "content": content,
@@ -238,9 +239,19 @@ def make_doc(case):
     return doc, k < len(content)
 
 
+def _shape(nodes):
+    if len(nodes) == 1 and nodes[0]["k"] == "tag" and nodes[0]["name"] in ("html", "body"):
+        return nodes[0]["name"]
+    return "fragment"
+
+
 def body_assemble(case, note):
     import htmltools as h
 
+    if _shape(case["content"]) != _shape(expand(case["content"])):
+        # whether e.g. [<body>, object expanding to nothing] counts as "a lone <body>" is not stated: not asserted
+        note(False, "ambiguous-shape-skipped")
+        return
     exp_root, res, shape, user_head, pre = assemble(case)
     doc, later = make_doc(case)
     r = doc.render(lib_prefix=case["lib"], include_version=case["iv"])
@@ -265,6 +276,7 @@ def body_assemble(case, note):
         "headc" if any("_headc" in d for d in res) else "",
         "no-deps" if not res else "",
         "head-after-body" if _head_after_body(case["content"]) else "",
+        "body-plus-more" if len(case["content"]) > 1 and case["content"][0]["k"] == "tag" and case["content"][0]["name"] == "body" else "",
     )
 
 
@@ -408,7 +420,7 @@ CLAUSES = [
         quick=700,
         thorough=10000,
         shards_quick=4,
-        required=("shape:html", "shape:body", "shape:fragment", "later-content", "user-head-with-dep", "kw-collides", "version-collision", "headc", "no-deps", "head-after-body"),
+        required=("shape:html", "shape:body", "shape:fragment", "later-content", "user-head-with-dep", "kw-collides", "version-collision", "headc", "no-deps", "head-after-body", "body-plus-more"),
         rule="see RULE",
     ),
 ]
